@@ -37,6 +37,8 @@ class Config:
     allow_zero_size: bool = True
     loopy_calls: bool = False
     float_only: bool = False
+    input_namer: Any = None      # k -> name of the k-th placeholder (default in<k>)
+    output_namer: Any = None     # k -> key of the k-th output (default out<k>)
 
 
 @dataclass
@@ -144,7 +146,7 @@ class _Gen:
                 return self.add(pt.arange(n, dtype=dtype), n, "arange")
         if r < 0.34 and dtype.kind == "f" and len(shape) == 2 and min(shape) > 0:
             return self.add(pt.eye(shape[0], shape[1], k=self.rng.randint(-1, 1), dtype=dtype), 1, "eye")
-        nm = f"in{self.nph}"
+        nm = self.cfg.input_namer(self.nph) if self.cfg.input_namer else f"in{self.nph}"
         self.nph += 1
         self.inputs[nm] = (shape, dtype.name)
         return self.add(pt.make_placeholder(nm, shape, dtype), b0, "placeholder")
@@ -689,7 +691,7 @@ class _Gen:
                 # mostly distinct outputs; the same array under two keys stays possible
                 if all(n is not o for o in outs.values()) or self.rng.random() < 0.12:
                     break
-            outs[f"out{k}"] = n
+            outs[self.cfg.output_namer(k) if self.cfg.output_namer else f"out{k}"] = n
         single = any(i.dtype in (np.dtype("float32"), np.dtype("complex64")) for i in self.info.values())
         return Program(self.index, outs, dict(self.inputs), list(self.ops), self.log, single)
 
